@@ -32,6 +32,38 @@ Proof. exact src_clipped_fill_solid_eq. Qed.
 Theorem C03_src_clipped_bounding_box_is_model : forall log clip, src_Clipped_bounding_box (Build_Clipped log clip) = clip.
 Proof. exact src_clipped_bounding_box_eq. Qed.
 
+(* round 5: Translated::new stores the parent and the offset (translated.rs:30-32; the generated constructor also returns the
+   `&mut` parent unchanged) *)
+Theorem C03_src_translated_new : forall parent offset,
+  src_Translated_new parent offset = (parent, Build_Translated parent offset).
+Proof. reflexivity. Qed.
+
+(* round 5: for an ARBITRARY parent F (any function of the parent's state, failing or not): the adapter hands the parent exactly the
+   lowered call, keeps the state the parent returns, and returns the parent's Result unchanged *)
+Theorem C03_src_translated_fill_solid_any_parent : forall (F : list call -> rect -> Z -> list call * (unit + unit)) log d area col,
+  src_Translated_fill_solid F (Build_Translated log d) area col
+  = (Build_Translated (fst (F log (translate_rect area d) col)) d, snd (F log (translate_rect area d) col)).
+Proof. exact src_translated_fill_solid_any. Qed.
+Theorem C03_src_translated_fill_contiguous_any_parent : forall (F : list call -> rect -> stream -> list call * (unit + unit)) log d area cs,
+  src_Translated_fill_contiguous F (Build_Translated log d) area cs
+  = (Build_Translated (fst (F log (translate_rect area d) cs)) d, snd (F log (translate_rect area d) cs)).
+Proof. exact src_translated_fill_contiguous_any. Qed.
+Theorem C03_src_translated_clear_any_parent : forall (F : list call -> Z -> list call * (unit + unit)) log d col,
+  src_Translated_clear F (Build_Translated log d) col = (Build_Translated (fst (F log col)) d, snd (F log col)).
+Proof. exact src_translated_clear_any. Qed.
+Theorem C03_src_clipped_fill_solid_any_parent : forall (F : list call -> rect -> Z -> list call * (unit + unit)) log clip area col,
+  size_i32 (sz area) -> size_i32 (sz clip) ->
+  src_Clipped_fill_solid F (Build_Clipped log clip) area col
+  = (Build_Clipped (fst (F log (intersection area clip) col)) clip, snd (F log (intersection area clip) col)).
+Proof. exact src_clipped_fill_solid_any. Qed.
+(* a failing parent: the error comes back *)
+Theorem C03_src_translated_fill_solid_failing_parent : forall log d area col,
+  src_Translated_fill_solid fail_solid (Build_Translated log d) area col = (Build_Translated log d, inr tt).
+Proof. exact src_translated_fill_solid_failing. Qed.
+Theorem C03_src_clipped_fill_solid_failing_parent : forall log clip area col,
+  src_Clipped_fill_solid fail_solid (Build_Clipped log clip) area col = (Build_Clipped log clip, inr tt).
+Proof. exact src_clipped_fill_solid_failing. Qed.
+
 Example C03_src_adapters_nonvacuous :
   Translated_parent (fst (src_Translated_fill_solid log_solid (Build_Translated [] (P 2 3)) (R (P 1 1) (Geometry.S 2 2)) 7)) = [FillSolid (R (P 3 4) (Geometry.S 2 2)) 7] /\
   Clipped_parent (fst (src_Clipped_fill_solid log_solid (Build_Clipped [] (R (P 0 0) (Geometry.S 4 4))) (R (P 2 2) (Geometry.S 5 5)) 7)) = [FillSolid (R (P 2 2) (Geometry.S 2 2)) 7].
